@@ -68,10 +68,36 @@ class Lin:
                           for ops, b, c in self.clean()) or '0'
 
 
+def positive_multiple(a, b):
+    """Rat k with b == k * a and k > 0 for positive symbols (noise scales, sizes), or None"""
+    ta, tb = a.clean(), b.clean()
+    if not ta or len(ta) != len(tb):
+        return None
+    o0, b0, c0 = ta[0]
+    k = None
+    for o2, b2, c2 in tb:
+        if o2 == o0 and (b2 == b0 if isinstance(b0, str) or isinstance(b2, str) else (b0[0] == b2[0] and b0[1].eq(b2[1]))):
+            k = c2 / c0
+    if k is None:
+        return None
+    try:
+        pos = k.sign_definite_nonneg() and not k.iszero()
+    except Exception:
+        pos = False
+    if not pos or not b.eq(a.scale(k)):
+        return None
+    return k
+
+
 def base_eq(a, b):
     if isinstance(a, str) or isinstance(b, str):
         return a == b
-    return a[0] == b[0] and a[1].eq(b[1])
+    if a[0] != b[0]:
+        return False
+    if a[1].eq(b[1]):
+        return True
+    # sign(k v) = sign(v) for k > 0
+    return a[0] == 'sign' and positive_multiple(a[1], b[1]) is not None
 
 
 class Quad:
@@ -79,8 +105,16 @@ class Quad:
         self.coef, self.a, self.b = coef, a, b
 
     def eq(self, o):
-        return isinstance(o, Quad) and self.coef.eq(o.coef) and \
-            ((self.a.eq(o.a) and self.b.eq(o.b)) or (self.a.eq(o.b) and self.b.eq(o.a)))
+        if not isinstance(o, Quad):
+            return False
+        if self.coef.eq(o.coef) and ((self.a.eq(o.a) and self.b.eq(o.b)) or (self.a.eq(o.b) and self.b.eq(o.a))):
+            return True
+        # bilinearity: c <k1 u, k2 v> = (c k1 k2) <u, v>
+        for x, y in ((o.a, o.b), (o.b, o.a)):
+            k1, k2 = positive_multiple(self.a, x), positive_multiple(self.b, y)
+            if k1 is not None and k2 is not None and self.coef.eq(o.coef * k1 * k2):
+                return True
+        return False
 
     def __repr__(self):
         return '%r*<%r, %r>' % (self.coef, self.a, self.b)
@@ -91,7 +125,16 @@ class L1Norm:
         self.coef, self.a = coef, a
 
     def eq(self, o):
-        return isinstance(o, L1Norm) and self.coef.eq(o.coef) and (self.a.eq(o.a) or self.a.eq(-o.a))
+        if not isinstance(o, L1Norm):
+            return False
+        if self.coef.eq(o.coef) and (self.a.eq(o.a) or self.a.eq(-o.a)):
+            return True
+        # positive homogeneity: c * sum|k v| = (c k) * sum|v| for k > 0
+        for cand in (o.a, -o.a):
+            k = positive_multiple(self.a, cand)
+            if k is not None and self.coef.eq(o.coef * k):
+                return True
+        return False
 
     def __repr__(self):
         return '%r*sum|%r|' % (self.coef, self.a)
